@@ -174,6 +174,11 @@ def build_items(shapes, tier, sd, A):
             items.append(item(toks, "imul", i, n=rnd.choice(mul_ns)))
         elif i % 17 == 6:
             items.append(item(toks, "addel", i, v=rnd.choice(VARS4[:2]), n=[rnd.randint(1, 5), 1]))
+        elif i % 17 in (8, 10):
+            # a sum, then an in-place add() on the sum / on the right operand of a species the right operand has
+            t2 = shapes[rnd.randrange(nshape)]
+            items.append(item(toks, "addsum" if i % 17 == 8 else "addopnd", i, toks2=t2,
+                              v=rnd.choice([x for x in VARS4 if x in t2]), n=[rnd.randint(1, 5), 1]))
         else:
             items.append(item(toks, "none", i))
     # histories on the smallest formulas, systematically: the formula, an in-place add() of each of two species, then
@@ -259,6 +264,13 @@ def replay_formula(rec):
                 r = s * (n[0] if n[1] == 1 else n[0] / n[1])
                 A.observe_substance(r, inv, "R.", obs)
                 A.observe_substance(s, inv, "A2.", obs)
+            elif op in ("addsum", "addopnd"):
+                b = A.Substance(A.render(it["toks2"], bind), natural=nat)
+                r = s + b
+                (r if op == "addsum" else b).add(A.sp_text(bind[it["v"]]), it["n"][0])       # in place
+                A.observe_substance(r, inv, "R.", obs)
+                A.observe_substance(s, inv, "A2.", obs)
+                A.observe_substance(b, inv, "B.", obs)
             elif op == "iadd":
                 b = A.Substance(A.render(it["toks2"], bind), natural=nat)
                 r = operator.iadd(s, b)                           # s += b
